@@ -55,8 +55,22 @@ def apply_case(toks, mode):
     if mode == 0:
         return toks
     out = []
+    is_fmt = any(x.kind == "id" and x.text.lower() == "format" for x in toks[:2])
     for t in toks:
         text = t.text
+        if mode == 3 and is_fmt:
+            # a FORMAT specification may hold Hollerith text: left as written
+            out.append(Tok(t.kind, text, t.pre))
+            continue
+        if mode == 3:
+            # every identifier in upper case: keywords AND names (the parse
+            # must be the same up to the case of names)
+            if t.kind in ("id", "cname", "dot"):
+                text = text.upper()
+            elif t.kind == "num":
+                text = text.upper()
+            out.append(Tok(t.kind, text, t.pre))
+            continue
         if t.kind == "id" and text.lower() in FOLD:
             text = text.upper() if mode == 1 else text[:1].upper() + text[1:].lower()
         elif t.kind == "dot":
@@ -155,7 +169,7 @@ def render_free(prog, ch, opts=None):
     from mc import corpus
 
     ds = corpus.depths(prog)
-    case_mode = ch.choose(3, "case") if opts.get("case", True) else 0
+    case_mode = ch.choose(4, "case") if opts.get("case", True) else 0
     if case_mode:
         lay.features.add("case%d" % case_mode)
     base_indent = ch.pick([1, 0, 2, 4], "indent")  # first statement stays in columns 1-5 (C05: otherwise the text is, legitimately, fixed form) if opts.get("indents", True) else 1
@@ -271,7 +285,7 @@ def render_free(prog, ch, opts=None):
         if join:
             lay.features.add("join")
             lay.expect.append(ex)
-            sep = ch.pick(["; ", ";", " ; "], "joinsep")
+            sep = ch.pick(["; ", ";", " ; ", ";; ", "; ; "], "joinsep")
             j = i + 1
             while True:
                 nxt = stmts[j]
@@ -294,6 +308,11 @@ def render_free(prog, ch, opts=None):
                 lay.comments.append((ctext, cl, len(lay.expect) - 1))
             i = j
             continue
+        # a ';' (or two) after the last statement of a line separates nothing
+        tsemi = ch.choose(3, "trailsemi") if opts.get("joins", True) else 0
+        if tsemi:
+            cur = cur + [";", " ; ;"][tsemi - 1]
+            lay.features.add("trailing-semicolon")
         if tc is not None:
             cur = cur + " " + tc
         lay.lines.append(cur)
